@@ -271,8 +271,9 @@ class MultilineParenthesesDetector(FullAstVisitor):
 
 class TrimWhitespaces(FullAstVisitor):
 
-    def __init__(self, config: FormatterConfig):
+    def __init__(self, config: FormatterConfig, first_round: bool = True):
         self.config = config
+        self.first_round = first_round
 
         self.in_block_comments = False
         self.in_arguments = 0
@@ -455,16 +456,21 @@ class TrimWhitespaces(FullAstVisitor):
             node.args.is_multiline = True
 
     def visit_FunctionNode(self, node: mparser.FunctionNode) -> None:
-        if node.func_name.value == 'files':
+        if node.func_name.value == 'files' and self.first_round:
+            # Only on the first round, while whitespaces are still attached to the tokens they follow.
+            # files([...]) -> files(...), unless a comment follows `[`, `]` or the trailing comma
+            while len(node.args.arguments) == 1 and not node.args.kwargs:
+                arg = node.args.arguments[0]
+                if not isinstance(arg, mparser.ArrayNode):
+                    break
+                attached = [arg.lbracket.whitespaces, arg.rbracket.whitespaces]
+                attached += [comma.whitespaces for comma in node.args.commas]
+                if any(ws and '#' in ws.value for ws in attached):
+                    break
+                node.args = arg.args
+
             if self.config.sort_files:
                 self.sort_arguments(node.args)
-
-            if len(node.args.arguments) == 1 and not node.args.kwargs:
-                arg = node.args.arguments[0]
-                if isinstance(arg, mparser.ArrayNode):
-                    if not arg.lbracket.whitespaces or not arg.lbracket.whitespaces.value.strip():
-                        # files([...]) -> files(...)
-                        node.args = arg.args
 
         super().visit_FunctionNode(node)
         self.move_whitespaces(node.rpar, node)
@@ -986,7 +992,7 @@ class Formatter:
 
         ast.accept(AstConditionLevel())
         for level in range(5):
-            ast.accept(TrimWhitespaces(self.current_config))
+            ast.accept(TrimWhitespaces(self.current_config, level == 0))
             ast.accept(ArgumentFormatter(self.current_config))
 
             cll = ComputeLineLengths(self.current_config, level)
